@@ -53,6 +53,13 @@ class Viol(Exception):
 
 
 def invariants(lib, m, d, S, step):
+  try:
+    _invariants(lib, m, d, S, step)
+  except Viol as e:
+    raise Viol('memory=%d step %d: %s' % (S, step, e), e.bucket)
+
+
+def _invariants(lib, m, d, S, step):
   E = lib.enums
   narena = int(d.narena)
   ncon, nefc = int(d.ncon), int(d.nefc)
@@ -95,15 +102,38 @@ def invariants(lib, m, d, S, step):
       raise Viol('%s not finite after a truncated step' % f, 'nonfinite')
 
 
+_models = {}
+
+
+def model_for(lib, scene):
+  """The scene compiled once with the default (ample) memory; the arena size of the compiled model is then set per
+  run (mjModel.narena is what <size memory> compiles to and what mj_makeData allocates).  Compiling with a tiny
+  memory is not used: the compiler itself needs stack, and in ASan builds a compile-time stack overflow loops forever
+  in mjCModel::Compile (mj_deleteData's dangling-frame check longjmps back into the try block)."""
+  key = (id(lib), scene['body'])
+  if key not in _models:
+    _models.clear()
+    m = lib.model_from_xml(gc.render(scene))
+    _models[key] = (m, int(m.narena))
+  return _models[key][0]
+
+
+def default_narena(lib, scene):
+  model_for(lib, scene)
+  return _models[(id(lib), scene['body'])][1]
+
+
 def run_size(lib, scene, seed, S, nsteps, ref, journal_base):
   """-> outcome dict; raises Viol."""
   E = lib.enums
-  xml = gc.render(scene, S)
+  m = model_for(lib, scene)
+  m.narena = S
+  if journal_base is not None:
+    asanproc.journal(dict(journal_base, memory=S, step=-1))
   try:
-    m = lib.model_from_xml(xml)
+    d = lib.make_data(m)
   except mj.MjError as e:
-    return dict(S=S, kind='compile', msg=str(e)[:80])
-  d = lib.make_data(m)
+    return dict(S=S, kind='error', site='mj_makeData', msg=str(e)[:80], warn=[], steps=0)
   out = dict(S=S, kind='ok', warn=[], steps=0, sync=True, site=None)
   try:
     rng = np.random.RandomState(seed)
@@ -119,7 +149,9 @@ def run_size(lib, scene, seed, S, nsteps, ref, journal_base):
         msg = str(e)
         site = re.search(r' at (\w+), line (\d+)', msg)
         out['kind'] = 'error'
-        out['site'] = ('%s:%s' % (site.group(1), site.group(2))) if site else msg[:40]
+        req = re.search(r'requested = (\d+)', msg)
+        out['site'] = ('%s:%s' % (site.group(1), site.group(2))) if site else \
+            ('mj_stackAllocByte(requested=%s)' % req.group(1) if req else msg[:40])
         out['msg'] = msg[:160].replace('\n', ' ')
         out['steps'] = k
         return out
@@ -131,7 +163,13 @@ def run_size(lib, scene, seed, S, nsteps, ref, journal_base):
         out['warn'].append('CONTACTFULL')
       if nf:
         out['warn'].append('CNSTRFULL')
-      invariants(lib, m, d, S, k)
+      try:
+        invariants(lib, m, d, S, k)
+      except Viol as e:
+        if e.bucket == 'efc_address' and int(d.nefc) == 0 and nf and not (int(m.opt.disableflags) & E.mjDSBL_ISLAND):
+          # island arrays did not fit: clearIsland() zeroes nefc but leaves contact[].efc_address (known finding)
+          raise Viol(str(e), 'efc_address:island-failure')
+        raise
       if in_sync:
         r = ref[k]
         ncon, nefc = int(d.ncon), int(d.nefc)
@@ -142,7 +180,10 @@ def run_size(lib, scene, seed, S, nsteps, ref, journal_base):
           raise Viol('memory=%d step %d: constraint set shrank (ncon %d<%d / nefc %d<%d) without CONTACTFULL/CNSTRFULL'
                      % (S, k, ncon, r['ncon'], nefc, r['nefc']), 'truncation-without-warning')
         keys = contact_keys(d)
-        if not keys <= r['keys']:
+        # (RK4 leaves the contacts of its last sub-stage, which is evaluated at a state that depends on the forces of
+        #  the earlier sub-stages: only comparable when nothing was truncated)
+        rk4 = int(m.opt.integrator) == E.mjINT_RK4
+        if not keys <= r['keys'] and not (rk4 and (cf or nf)):
           raise Viol('memory=%d step %d: %d contacts of the truncated set are not contacts of the unbounded run' % (
               S, k, len(keys - r['keys'])), 'contact-not-in-reference')
         if cf or nf:
@@ -160,69 +201,83 @@ def run_size(lib, scene, seed, S, nsteps, ref, journal_base):
 
 
 def reference(lib, scene, seed, nsteps):
-  m = lib.model_from_xml(gc.render(scene))
+  m = model_for(lib, scene)
+  m.narena = default_narena(lib, scene)
   d = lib.make_data(m)
-  rng = np.random.RandomState(seed)
-  d.qvel[:] = rng.uniform(-0.5, 0.5, m.nv)
-  ref = []
-  for k in range(nsteps):
-    lib.mj_step(m, d)
-    ref.append(dict(ncon=int(d.ncon), nefc=int(d.nefc), keys=contact_keys(d),
-                    qpos=np.asarray(d.qpos).view(np.uint64).copy(), qvel=np.asarray(d.qvel).view(np.uint64).copy()))
-  mx = int(d.maxuse_arena)
-  delete(lib, d)
-  return ref, mx
+  try:
+    rng = np.random.RandomState(seed)
+    d.qvel[:] = rng.uniform(-0.5, 0.5, m.nv)
+    ref = []
+    for k in range(nsteps):
+      try:
+        lib.mj_step(m, d)
+      except mj.MjError as e:
+        raise Viol('unbounded run (default memory) raised: %s' % str(e)[:300], 'reference-error')
+      ref.append(dict(ncon=int(d.ncon), nefc=int(d.nefc), keys=contact_keys(d),
+                      qpos=np.asarray(d.qpos).view(np.uint64).copy(), qvel=np.asarray(d.qvel).view(np.uint64).copy()))
+    mx = int(d.maxuse_arena)
+    return ref, mx
+  finally:
+    delete(lib, d)
 
 
 def clean(o, nsteps):
   return o['kind'] == 'ok' and not o['warn'] and o['steps'] == nsteps
 
 
+def run_size_nv(lib, scene, seed, S, nsteps, ref, jb):
+  """run_size for the bisection: a violating size counts as 'not clean' (it is judged again in the sweep)."""
+  try:
+    return run_size(lib, scene, seed, S, nsteps, ref, jb)
+  except Viol:
+    return dict(S=S, kind='violation', warn=[], steps=0)
+
+
 def handler(job):
+  """mode 'bisect': -> dict(need, maxuse_unbounded, ref=[(ncon, nefc)...]);  sizes in job['avoid'] are not executed
+  (they killed an earlier worker) and count as not clean.
+  mode 'sweep': -> dict(outcomes=[...], violations=[...]) for job['sizes']."""
   variant = job['variant']
   lib = lib_for(variant)
   scene, seed, nsteps = job['scene'], job['seed'], job['nsteps']
   jb = dict(scene_body=scene['body'], seed=seed, variant=variant)
-  res = dict(outcomes=[], violations=[], need=None, min_compile=None, ref=None)
+  res = dict(outcomes=[], violations=[], need=None, ref=None)
   try:
     ref, maxuse = reference(lib, scene, seed, nsteps)
     res['ref'] = [(r['ncon'], r['nefc']) for r in ref]
-    # ---- binary search: smallest memory whose run is clean (need) / smallest memory that compiles (min_compile)
-    hi = 2 * maxuse + 4096
-    while not clean(run_size(lib, scene, seed, hi, nsteps, ref, jb), nsteps):
-      hi *= 2
-      if hi > (1 << 28):
-        raise Viol('no memory size up to 256MB gives a clean run', 'need-search')
-    lo = 0
-    while hi - lo > 1:
-      mid = (lo + hi) // 2
-      if clean(run_size(lib, scene, seed, mid, nsteps, ref, jb), nsteps):
-        hi = mid
-      else:
-        lo = mid
-    need = hi
-    lo, hi2 = 0, need
-    while hi2 - lo > 1:
-      mid = (lo + hi2) // 2
-      if run_size(lib, scene, seed, mid, nsteps, None, jb)['kind'] != 'compile':
-        hi2 = mid
-      else:
-        lo = mid
-    minc = hi2
-    res['need'], res['min_compile'], res['maxuse_unbounded'] = need, minc, maxuse
-    # ---- sweep
-    sizes = set([need - 1, need, need + 64, minc, max(1, minc - 1), 0, 1])
-    if job.get('every'):
-      sizes |= set(range(minc, need, job['every']))
-    else:
-      sizes |= set(int(x) for x in np.linspace(minc, need, job['coarse']))
-      sizes |= set(range(minc, min(need, minc + job['dense_span']), job['dense_step']))
-    for S in sorted(sizes):
-      if S < 0:
+    res['maxuse_unbounded'] = maxuse
+    if job['mode'] == 'bisect':
+      avoid = set(job.get('avoid', []))
+
+      def is_clean(S):
+        if S in avoid:
+          return False
+        return clean(run_size_nv(lib, scene, seed, S, nsteps, ref, jb), nsteps)
+      hi = 2 * maxuse + 4096
+      while not is_clean(hi):
+        hi *= 2
+        if hi > (1 << 28):
+          raise Viol('no memory size up to 256MB gives a clean run', 'need-search')
+      lo = 0
+      while hi - lo > 1:
+        mid = (lo + hi) // 2
+        if is_clean(mid):
+          hi = mid
+        else:
+          lo = mid
+      res['need'] = hi
+      return res
+    need = job['need']
+    for S in job['sizes']:
+      try:
+        o = run_size(lib, scene, seed, S, nsteps, ref, jb)
+      except Viol as e:
+        if not any(v['bucket'] == e.bucket for v in res['violations']):
+          res['violations'].append(dict(bucket=e.bucket, msg=str(e), memory=S))
+        res['outcomes'].append(dict(S=S, kind='violation', warn=[], steps=0, site=e.bucket))
         continue
-      o = run_size(lib, scene, seed, S, nsteps, ref, jb)
-      if S >= need and not clean(o, nsteps):
-        raise Viol('memory=%d >= need=%d but the run is not clean: %s' % (S, need, o), 'non-monotone-need')
+      if S in (need, need + 64) and not clean(o, nsteps):
+        raise Viol('memory=%d (need=%d) but the run is not clean: %s' % (S, need, o), 'non-monotone-need')
       res['outcomes'].append(o)
   except Viol as e:
     res['violations'].append(dict(bucket=e.bucket, msg=str(e)))
